@@ -88,6 +88,9 @@ def extra_configs():
     C["self-reference-with-twin-in-lookup-root"] = {"root": "p/ra", "lookups": ["q/ra"], "defs": [D("p/ra", "ra.Node", (1, 0), [("ra.Node", (1, 0))]), D("q/ra", "ra.Node", (1, 0)), D("q/ra", "ra.Other", (1, 0))], "outside_override": [1, 2]}
     C["cycle-with-twin-in-lookup-root"] = {"root": "p/ra", "lookups": ["q/ra"], "defs": [D("p/ra", "ra.A", (1, 0), [("ra.B", (1, 0))]), D("p/ra", "ra.B", (1, 0), [("ra.A", (1, 0))]), D("q/ra", "ra.A", (1, 0)), D("q/ra", "ra.Other", (1, 0))], "outside_override": [2, 3]}
     C["self-reference-with-legacy-twin"] = {"root": "ra", "lookups": [], "defs": [D("ra", "ra.Node", (1, 0), [("ra.Node", (1, 0))]), D("ra", "ra.Node", (1, 0), legacy=True), D("ra", "ra.Other", (1, 0))], "outside_override": [1, 2], "rf_only": [0]}
+    # lookup directories that sit next to the root and whose NAMES extend the root's name (acme, acme_ext, acme2): string prefixes of paths
+    C["lookup-name-extends-root-name"] = {"root": "ra", "lookups": ["ra_ext", "ra2"], "defs": [D("ra", "ra.A", (1, 0), [("ra_ext.X", (1, 0))]), D("ra", "ra.B", (1, 0)), D("ra_ext", "ra_ext.X", (1, 0)), D("ra_ext", "ra_ext.Unused", (1, 0)), D("ra2", "ra2.Y", (1, 0)), D("ra2", "ra2.s.Z", (1, 0))]}
+    C["root-name-extends-lookup-name"] = {"root": "ra_ext", "lookups": ["ra"], "defs": [D("ra_ext", "ra_ext.A", (1, 0), [("ra.X", (1, 0))]), D("ra", "ra.X", (1, 0)), D("ra", "ra.Unused", (1, 0))]}
     C["target-fails"] = {"root": "ra", "lookups": ["rb"], "defs": [D("ra", "ra.A", (1, 0), text="uint8 a\n@assert false\n@sealed\n"), D("rb", "rb.X", (1, 0)), D("rb", "rb.Y", (1, 0))]}
     return C
 
